@@ -1,13 +1,121 @@
-"""C26 -- Static files and FilePath never escape their directory: bounded stand-in (contracts/parts/C26_bounded.py)."""
-from contracts._parts import bounded, EXPLORATION_NOTE
+"""C26 -- Static files and FilePath never escape their directory.
 
-CONTRACTS = []
+Deductive: FilePath.preauthChild, for an arbitrary name and *whatever* os.path.normpath / join / abspath compute (they
+are uninterpreted functions here; only abspath(abspath(x)) == abspath(x) is assumed): the path of the FilePath that is
+returned is the parent's path or begins with the parent's path followed by a separator -- i.e. the string that is
+returned is the string that passed the containment test -- and otherwise InsecurePath is raised.  FilePath.child: the
+returned path starts with the parent's path and the name's normal form contains no separator (containment then rests
+on os.path.join, which is exercised in the bounded tier).
+Bounded (contracts/parts/C26_bounded.py): the real os.path functions, the filesystem and static.File requests.
+"""
+import z3
+
+from pyvc.api import *
+from pyvc import core
+from contracts._parts import bounded
+from twisted.python import filepath
+
+PARENT = b"/ghost/root"
+SEP = b"/"
+SEQ = core.IntSeq
+ABS = z3.Function("c26_abspath", SEQ, SEQ)
+NORM = z3.Function("c26_normpath", SEQ, SEQ)
+JOIN = z3.Function("c26_join", SEQ, SEQ, SEQ)
+
+
+def _seq(x):
+    return core.seq_term(x, "bytes")
+
+
+def abspath_model(I, p):
+    if not is_sym(p):
+        import os.path
+        return os.path.abspath(p)
+    t = ABS(_seq(p))
+    ctx().assume(ABS(t) == t)  # the one assumed property: abspath is idempotent
+    return core.SSeq(t, "bytes")
+
+
+def normpath_model(I, p):
+    if not is_sym(p):
+        import os.path
+        return os.path.normpath(p)
+    return core.SSeq(NORM(_seq(p)), "bytes")
+
+
+def join_model(I, a, b):
+    if not is_sym(a) and not is_sym(b):
+        import os.path
+        return os.path.join(a, b)
+    return core.SSeq(JOIN(_seq(a), _seq(b)), "bytes")
+
+
+CALLS = {"sys.getfilesystemencoding": "native", "getfilesystemencoding": "native", "posixpath.abspath": abspath_model, "posixpath.normpath": normpath_model, "posixpath.join": join_model}
+
+
+def contained(p):
+    """lexical containment in PARENT: the parent itself, or the parent followed by a separator and more"""
+    return bor(veq(p, PARENT), core.seq_startswith(p, PARENT + SEP))
+
+
+class _Confined(Contract):
+    prop = "C26"
+    module = "twisted.python.filepath"
+    differential = False
+    calls = CALLS
+    inputs = dict(name=Bytes(alphabet=b"a./", small_len=3))
+    trusted = ["os.path.abspath is idempotent; normpath / join / abspath are otherwise arbitrary (uninterpreted)",
+               "POSIX separator; bytes names (text names go through the same code after encoding)"]
+
+    def setup(self, i):
+        fp = filepath.FilePath(PARENT)
+        return dict(fn=getattr(filepath.FilePath, self.function.split(".")[1]), args=[fp, i.name])
+
+    def bounded_inputs(self, tier):
+        return iter(())  # the real os.path functions are exercised by the bounded part
+
+    raises = (filepath.InsecurePath,)
+    ensures = dict(returned_path_passed_the_containment_test=lambda S: None if S.exc else contained(S.result.path))
+
+
+class PreauthChild(_Confined):
+    function = "FilePath.preauthChild"
+    canaries = [("newpath = abspath(joinpath(ourPath, normpath(path)))", "newpath = joinpath(ourPath, normpath(path))", "returned_path_passed_the_containment_test"),
+                ("if not (newpath == base or newpath.startswith(base + sep)):", "if not newpath.startswith(base):", "returned_path_passed_the_containment_test")]
+
+
+class Child(_Confined):
+    function = "FilePath.child"
+
+    def _no_separator(S):
+        # the name's normal form contains no separator whenever a path is returned
+        if S.exc is not None:
+            return None
+        return bnot(core.seq_contains(core.SSeq(NORM(_seq(S.i.name)), "bytes"), SEP)) if is_sym(S.i.name) else True
+
+    # child() tests `newpath.startswith(ourPath)` without a separator boundary; that this suffices rests on the name being
+    # a single segment (proved here) and on os.path.join putting a separator before it (library; bounded tier)
+    ensures = dict(returned_path_passed_the_prefix_test=lambda S: None if S.exc else core.seq_startswith(S.result.path, PARENT),
+                   one_segment_only=_no_separator)
+    canaries = [("if sep in norm:", "if False:", "one_segment_only"),
+                ("if not newpath.startswith(ourPath):", "if False:", "returned_path_passed_the_prefix_test")]
+
+
+CONTRACTS = [PreauthChild, Child]
 BOUNDED = bounded("C26")
 _SCOPE = ("real FilePath.child / descendant / preauthChild and full HTTP requests to Site(static.File(root)) on a scratch tree with prefix-sharing siblings (rootx/, root.bak): every concatenation of up to 3 (thorough 4) hostile fragments (/ \\ . .. NUL %2e %2f non-UTF-8, absolute paths) as names, 6 parent spellings, bytes and str; requests over a product of prefixes x '..' spellings x separator spellings x targets and 3 ignoredExts configurations; oracle: an independent component walk plus inode identity, and an audit hook recording every path opened / listed during a request judged by realpath")
-NOTES = dict(explanation=_SCOPE, not_covered=["deductive contracts on the anchored functions (not built)"])
+NOTES = dict(explanation="child / preauthChild proved to return only a path that passed the containment test, for arbitrary os.path behaviour; the real "
+                         "functions and requests are bounded: " + _SCOPE,
+             not_covered=["that abspath / normpath canonicalise '..' and symlink-free paths correctly (library; bounded tier)",
+                          "static.File.getChild / descendant as deductive contracts", "Windows separators and colons"])
 MANIFEST = dict(
-    category="exploration",
-    text="Bounded stand-in only, on the real code: " + _SCOPE + ".",
-    note=EXPLORATION_NOTE,
-    technique="bounded exhaustive evaluation of an executable contract on the real code (stand-in; not proved)",
+    category="proof",
+    text="FilePath.preauthChild is proved, for every name and for arbitrary results of os.path.normpath / join / abspath "
+         "(uninterpreted; only idempotence of abspath assumed), to return a FilePath whose path is the parent's path or starts "
+         "with the parent's path plus a separator -- the returned string is the one that passed the test -- or to raise "
+         "InsecurePath.  FilePath.child is proved to return only a path that starts with the parent's path and only for a "
+         "name whose normal form contains no separator (that this implies containment rests on os.path.join, bounded).  The real os.path "
+         "functions, the filesystem and static.File requests are exercised in the bounded tier only: " + _SCOPE + ".",
+    note="Trusted: pyvc, SMT solvers, abspath idempotent, POSIX separator.  Everything else: bounded, never counted as proved.",
+    technique="contract-based deductive verification (symbolic execution with uninterpreted library functions, SMT) + bounded exhaustive names and requests",
 )
